@@ -4345,9 +4345,17 @@ impl<'s> Semantics<'s> {
                 Expression::cmpltu(result.clone().into(), lhs)?,
             );
 
-            // store result: dest gets sum, src gets original dest
-            self.operand_store(block, &detail.operands[0], result.into())?;
-            self.operand_store(block, &detail.operands[1], original_dest.into())?;
+            // store result: src gets original dest, then dest gets sum (so the sum
+            // wins for `xadd eax, eax`). A memory destination is stored first: its
+            // address may use the source register (`xadd [rbx], bx`) and is computed
+            // before any register changes.
+            if detail.operands[0].type_ == x86_op_type::X86_OP_MEM {
+                self.operand_store(block, &detail.operands[0], result.into())?;
+                self.operand_store(block, &detail.operands[1], original_dest.into())?;
+            } else {
+                self.operand_store(block, &detail.operands[1], original_dest.into())?;
+                self.operand_store(block, &detail.operands[0], result.into())?;
+            }
 
             block.index()
         };
